@@ -20,8 +20,8 @@ use domain::zonetree::parsed::Zonefile;
 use domain::zonetree::types::{StoredName, StoredRecord, ZoneCut, ZoneUpdate};
 use domain::zonetree::update::ZoneUpdater;
 use domain::zonetree::{
-    Answer, ReadableZone, Rrset, SharedRr, SharedRrset, WritableZone, WritableZoneNode, Zone,
-    ZoneBuilder,
+    Answer, AnswerContent, ReadableZone, Rrset, SharedRr, SharedRrset, WritableZone, WritableZoneNode, Zone,
+    ZoneBuilder, ZoneTree,
 };
 use serde_json::{json, Value};
 use std::collections::BTreeMap;
@@ -52,7 +52,33 @@ pub fn name_of(v: &Value) -> StoredName {
     b.append_origin(&apex()).unwrap()
 }
 
-/// absolute name -> model name (relative to the apex); names outside the
+/// absolute name as spelled by the model: an array of labels (root implicit)
+pub fn abs_name(v: &Value) -> StoredName {
+    let mut b = NameBuilder::new_bytes();
+    if let Some(labels) = v.as_array() {
+        for l in labels {
+            let octs: Vec<u8> = l
+                .as_array()
+                .map(|a| a.iter().map(|x| x.as_u64().unwrap_or(0) as u8).collect())
+                .unwrap_or_default();
+            b.append_label(&octs).unwrap();
+        }
+    }
+    b.into_name().unwrap()
+}
+
+/// the name an operation / query is performed with: the spelling the model
+/// chose (`key`, absolute) if it gave one, else the canonical spelling of `n`
+pub fn spelled(op: &Value, key: &str, n: &Value) -> StoredName {
+    if op[key].is_array() {
+        abs_name(&op[key])
+    } else {
+        name_of(n)
+    }
+}
+
+/// absolute name -> model name (relative to the apex, lower case: the bindings
+/// compare owner names case-insensitively, RFC 4343); names outside the
 /// zone are rendered with a leading marker label so that they never compare
 /// equal to a model name
 pub fn model_name(n: &impl ToName) -> Value {
@@ -63,7 +89,7 @@ pub fn model_name(n: &impl ToName) -> Value {
         Value::Array(
             full[..full.len() - apl.len()]
                 .iter()
-                .map(|l| Value::Array(l.as_slice().iter().map(|o| json!(*o)).collect()))
+                .map(|l| Value::Array(l.as_slice().iter().map(|o| json!(o.to_ascii_lowercase())).collect()))
                 .collect(),
         )
     } else {
@@ -163,6 +189,10 @@ pub fn record_of(n: &Value, t: &str, x: u64) -> StoredRecord {
     Record::new(name_of(n), Class::IN, Ttl::from_secs(TTL), data_of(t, x))
 }
 
+pub fn record_at(owner: StoredName, class: Class, t: &str, x: u64) -> StoredRecord {
+    Record::new(owner, class, Ttl::from_secs(TTL), data_of(t, x))
+}
+
 pub fn rrset_of(t: &str, xs: &[u64]) -> SharedRrset {
     let mut r = Rrset::new(rtype_of(t), Ttl::from_secs(TTL));
     for x in xs {
@@ -217,12 +247,90 @@ pub fn project(answer: &Answer, qname: &StoredName, qtype: Rtype) -> Value {
     })
 }
 
+/// The same answer observed through the getters (`rcode()`, `content()`,
+/// `AnswerContent::first()`, `authority()`): "for complete control use the getter
+/// functions".  What the getters cannot give (AA, the authority and additional
+/// records) is taken from the message view.
+pub fn project_getters(answer: &Answer, qname: &StoredName, qtype: Rtype) -> Value {
+    let mut v = project(answer, qname, qtype);
+    let rec = |d: &Data, ttl: Ttl| {
+        let (t, x) = model_data(d);
+        json!([model_name(qname), if ttl == Ttl::from_secs(TTL) { t } else { format!("{}!ttl", t) }, x])
+    };
+    let mut ans: Vec<Value> = match answer.content() {
+        AnswerContent::Data(rrset) => rrset.data().iter().map(|d| rec(d, rrset.ttl())).collect(),
+        AnswerContent::Cname(rr) => vec![rec(rr.data(), rr.ttl())],
+        AnswerContent::NoData => vec![],
+    };
+    match (answer.content().first(), ans.first()) {
+        (None, None) => {}
+        (Some((ttl, d)), Some(f)) if &rec(&d, ttl) == f => {}
+        _ => ans.push(json!("first() is not the first record of content()")),
+    }
+    if answer.authority().is_some() != !v["auth"].as_array().map(|a| a.is_empty()).unwrap_or(true) {
+        ans.push(json!("authority() disagrees with the authority section"));
+    }
+    v["ans"] = sort_recs(ans);
+    v["rcode"] = json!(match answer.rcode() {
+        Rcode::NOERROR => "NOERROR".to_string(),
+        Rcode::NXDOMAIN => "NXDOMAIN".to_string(),
+        r => format!("{}", r),
+    });
+    v
+}
+
 pub fn query(reader: &dyn ReadableZone, qn: &Value, qt: &str) -> Value {
     let name = name_of(qn);
     match reader.query(name.clone(), rtype_of(qt)) {
         Ok(a) => project(&a, &name, rtype_of(qt)),
         Err(_) => json!({"out_of_zone": true}),
     }
+}
+
+/// One query as the model put it: `c.sq` the spelled absolute name (else the
+/// canonical `c.qn`), `c.ob` the observation route.
+pub fn query_as(reader: &dyn ReadableZone, c: &Value) -> Value {
+    let name = spelled(c, "sq", &c["qn"]);
+    let qt = rtype_of(c["qt"].as_str().unwrap_or(""));
+    match reader.query(name.clone(), qt) {
+        Ok(a) if c["ob"] == "get" => project_getters(&a, &name, qt),
+        Ok(a) => project(&a, &name, qt),
+        Err(_) => json!({"out_of_zone": true}),
+    }
+}
+
+/// The zones a server holds besides the zone under test (none of them encloses a
+/// name the model asks for).
+pub const DECOYS: [&str; 4] = ["org.", "sub.example.org.", "examples.", "example."];   // the last one of class CH
+
+/// Query route "tree": the zone is found in a ZoneTree first (find_zone: longest
+/// enclosing apex of the class; get_zone: exactly that apex); a name no zone
+/// encloses is answered with Answer::refused().
+pub fn query_via_tree(tree: &ZoneTree, c: &Value) -> Value {
+    let name = spelled(c, "sq", &c["qn"]);
+    let qt = rtype_of(c["qt"].as_str().unwrap_or(""));
+    match tree.find_zone(&name, Class::IN) {
+        None => project(&Answer::refused(), &name, qt),
+        Some(zone) => {
+            if zone.class() != Class::IN || zone.apex_name() != &apex() {
+                return json!({"found_zone": format!("{}", zone.apex_name())});
+            }
+            if tree.get_zone(zone.apex_name(), zone.class()).is_none() {
+                return json!({"get_zone": "does not find what find_zone found"});
+            }
+            query_as(zone.read().as_ref(), c)
+        }
+    }
+}
+
+pub fn tree_with(zone: &Zone) -> ZoneTree {
+    let mut tree = ZoneTree::new();
+    for (i, d) in DECOYS.iter().enumerate() {
+        let b = ZoneBuilder::new(Name::from_str(d).unwrap(), if i == 3 { Class::CH } else { Class::IN });
+        tree.insert_zone(b.build()).unwrap();
+    }
+    tree.insert_zone(zone.clone()).unwrap();
+    tree
 }
 
 pub fn walk(reader: &dyn ReadableZone) -> Value {
@@ -254,6 +362,66 @@ pub fn build_zone(recs: &[Value]) -> Result<Zone, String> {
     Ok(b.build())
 }
 
+/// A zone file object created by one of the routes the model names:
+/// "new" Zonefile::new(apex, class); "soa" Zonefile::default() (apex and class
+/// come from the SOA, the first record); "origin" Zonefile::new(<another name>)
+/// followed by set_origin(apex).  The SOA goes in first, as in a zone file.
+pub fn new_zonefile(route: &str, apex_sp: &StoredName) -> Result<Zonefile, String> {
+    let mut zf = match route {
+        "soa" => Zonefile::default(),
+        "origin" => {
+            let mut z = Zonefile::new(Name::from_str("elsewhere.test.").unwrap(), Class::IN);
+            z.set_origin(apex_sp.clone());
+            z
+        }
+        _ => Zonefile::new(apex_sp.clone(), Class::IN),
+    };
+    zf.insert(record_at(apex_sp.clone(), Class::IN, "SOA", 1)).map_err(|e| format!("zonefile insert (SOA): {}", e))?;
+    if zf.origin() != Some(apex_sp) || zf.class() != Some(Class::IN) {
+        return Err("zone file origin()/class() are not what the zone was created with".into());
+    }
+    Ok(zf)
+}
+
+/// presentation format of the records (owners spelled `apex_sp`-relative as given)
+pub fn zone_text(recs: &[(StoredName, String, u64)]) -> String {
+    let mut out = String::new();
+    for (owner, t, x) in recs {
+        out.push_str(&format!("{} {} IN {} {}\n", owner.fmt_with_dot(), TTL, rtype_of(t), data_of(t, *x)));
+    }
+    out
+}
+
+/// Build route "text": presentation format -> inplace::Zonefile -> Zone::try_from
+pub fn build_from_text(text: &str) -> Result<Zone, String> {
+    let reader = domain::zonefile::inplace::Zonefile::load(&mut text.as_bytes()).map_err(|e| format!("load: {}", e))?;
+    Zone::try_from(reader).map_err(|_| format!("Zone::try_from rejected the zone file:\n{}", text))
+}
+
+/// Build route "builder": ZoneBuilder::new and the insert_* functions with the
+/// classification the model made (cuts with their glue, CNAMEs, plain RRsets)
+pub fn build_from_parts(apex_sp: &StoredName, parts: &Value, sp: &dyn Fn(&Value) -> StoredName) -> Result<Zone, String> {
+    let mut b = ZoneBuilder::new(apex_sp.clone(), Class::IN);
+    for c in parts["cuts"].as_array().cloned().unwrap_or_default() {
+        let ds = u64s(&c["ds"]);
+        let glue: Vec<StoredRecord> = c["glue"]
+            .as_array()
+            .map(|g| g.iter().map(|r| record_at(sp(&r[0]), Class::IN, r[1].as_str().unwrap_or("A"), r[2].as_u64().unwrap_or(0))).collect())
+            .unwrap_or_default();
+        b.insert_zone_cut(&sp(&c["n"]), rrset_of("NS", &u64s(&c["ns"])), if ds.is_empty() { None } else { Some(rrset_of("DS", &ds)) }, glue)
+            .map_err(|e| format!("insert_zone_cut: {:?}", e))?;
+    }
+    for c in parts["cnames"].as_array().cloned().unwrap_or_default() {
+        b.insert_cname(&sp(&c["n"]), SharedRr::new(Ttl::from_secs(TTL), data_of("CNAME", c["x"].as_u64().unwrap_or(0))))
+            .map_err(|e| format!("insert_cname: {:?}", e))?;
+    }
+    for r in parts["plain"].as_array().cloned().unwrap_or_default() {
+        b.insert_rrset(&sp(&r["n"]), rrset_of(r["t"].as_str().unwrap_or(""), &u64s(&r["xs"])))
+            .map_err(|_| "insert_rrset: out of zone".to_string())?;
+    }
+    Ok(Zone::from(b))
+}
+
 pub enum Session {
     /// a user of the write interface: WritableZone + the open root node
     W { wz: Box<dyn WritableZone>, root: Option<Box<dyn WritableZoneNode>> },
@@ -265,6 +433,13 @@ pub struct ZoneHarness {
     pub rt: tokio::runtime::Runtime,
     pub zone: Option<Zone>,
     pub zf: Vec<Value>,
+    /// the zone in a ZoneTree among other zones (query route "tree")
+    pub tree: Option<ZoneTree>,
+    /// the live zone file object (build routes of the model) and the records it holds
+    pub zfile: Option<Zonefile>,
+    pub zfile_has: Vec<Value>,
+    /// the owners as they were spelled when inserted
+    pub zf_spelled: Vec<(StoredName, String, u64)>,
     pub writers: BTreeMap<String, Session>,
     pub readers: BTreeMap<String, Box<dyn ReadableZone>>,
 }
@@ -279,6 +454,10 @@ impl ZoneHarness {
             rt: tokio::runtime::Builder::new_current_thread().enable_all().build().unwrap(),
             zone: None,
             zf: vec![json!([[], "SOA", 1])],
+            tree: None,
+            zfile: None,
+            zfile_has: vec![],
+            zf_spelled: vec![],
             writers: BTreeMap::new(),
             readers: BTreeMap::new(),
         }
@@ -286,6 +465,7 @@ impl ZoneHarness {
 
     pub fn from_zone(zone: Zone) -> Self {
         let mut h = Self::new();
+        h.tree = Some(tree_with(&zone));
         h.zone = Some(zone);
         h
     }
@@ -296,8 +476,7 @@ impl ZoneHarness {
 
     /// node for the model name `n` below the session's root, creating
     /// missing nodes exactly like a user descending with update_child
-    fn descend(rt: &tokio::runtime::Runtime, root: &Box<dyn WritableZoneNode>, n: &Value) -> Option<Box<dyn WritableZoneNode>> {
-        let name = name_of(n);
+    fn descend(rt: &tokio::runtime::Runtime, root: &Box<dyn WritableZoneNode>, name: &StoredName) -> Option<Box<dyn WritableZoneNode>> {
         let ap = apex();
         let labels: Vec<&Label> = name.iter_labels().collect();
         let k = labels.len() - ap.iter_labels().count();
@@ -312,6 +491,60 @@ impl ZoneHarness {
         node
     }
 
+    /// the spelling of the apex the model created the zone with
+    fn apex_sp(op: &Value) -> StoredName {
+        if op["apx"].is_array() { abs_name(&op["apx"]) } else { apex() }
+    }
+
+    fn ensure_zfile(&mut self, op: &Value) -> Result<(), String> {
+        if self.zfile.is_none() {
+            let route = op["br"].as_str().unwrap_or("new");
+            let live = if matches!(route, "soa" | "origin") { route } else { "new" };
+            let ap = Self::apex_sp(op);
+            self.zfile = Some(new_zonefile(live, &ap)?);
+            self.zfile_has = vec![json!([[], "SOA", 1])];
+            self.zf_spelled = vec![(ap, "SOA".to_string(), 1)];
+        }
+        Ok(())
+    }
+
+    /// "Build" by the route the model names (see Gen_ZoneStore.tla)
+    fn build_routed(&mut self, op: &Value) -> Result<Zone, String> {
+        self.ensure_zfile(op)?;
+        let ap = Self::apex_sp(op);
+        // records the model's zone file holds from the start (directed generators)
+        let todo: Vec<Value> = self.zf.iter().filter(|r| !self.zfile_has.contains(r)).cloned().collect();
+        for r in todo {
+            let mut b = NameBuilder::new_bytes();
+            for l in name_of(&r[0]).iter_labels().take(r[0].as_array().map(|a| a.len()).unwrap_or(0)) {
+                b.append_label(l.as_slice()).unwrap();
+            }
+            let owner: StoredName = b.append_origin(&ap).unwrap();
+            let (t, x) = (r[1].as_str().unwrap_or("").to_string(), r[2].as_u64().unwrap_or(0));
+            self.zfile.as_mut().unwrap().insert(record_at(owner.clone(), Class::IN, &t, x)).map_err(|e| format!("zonefile insert: {}", e))?;
+            self.zfile_has.push(r.clone());
+            self.zf_spelled.push((owner, t, x));
+        }
+        match op["br"].as_str().unwrap_or("new") {
+            "text" => build_from_text(&zone_text(&self.zf_spelled)),
+            "builder" => {
+                let sp = |n: &Value| -> StoredName {
+                    let mut b = NameBuilder::new_bytes();
+                    for l in name_of(n).iter_labels().take(n.as_array().map(|a| a.len()).unwrap_or(0)) {
+                        b.append_label(l.as_slice()).unwrap();
+                    }
+                    b.append_origin(&ap).unwrap()
+                };
+                build_from_parts(&ap, &op["parts"], &sp)
+            }
+            _ => {
+                let zf = self.zfile.take().unwrap();
+                // TryFrom<parsed::Zonefile> for Zone (through ZoneBuilder::try_from)
+                Zone::try_from(zf).map_err(|_| "Zone::try_from rejected the zone file".to_string())
+            }
+        }
+    }
+
     /// Perform one model action.  Returns the observation the action makes
     /// (`null` for actions that observe nothing).
     pub fn apply(&mut self, op: &Value) -> Value {
@@ -320,17 +553,42 @@ impl ZoneHarness {
         let r = op["r"].as_str().unwrap_or("").to_string();
         let t = op["t"].as_str().unwrap_or("");
         match a {
-            "ZfInsert" => {
-                self.zf.push(json!([op["n"], op["t"], op["x"]]));
-                Value::Null
+            "ZfInsert" | "ZfReject" => {
+                let rec3 = json!([op["n"], op["t"], op["x"]]);
+                if !op["br"].is_string() {
+                    // recorder-style event without routes: collected, built at "Build"
+                    if a == "ZfInsert" {
+                        self.zf.push(rec3);
+                    }
+                    return Value::Null;
+                }
+                if let Err(e) = self.ensure_zfile(op) {
+                    return json!({"build_error": e});
+                }
+                let owner = spelled(op, "sn", &op["n"]);
+                let class = if op["cls"] == "CH" { Class::CH } else { Class::IN };
+                let res = self.zfile.as_mut().unwrap().insert(record_at(owner.clone(), class, t, op["x"].as_u64().unwrap_or(0)));
+                match (a, res) {
+                    ("ZfInsert", Ok(())) => {
+                        self.zf.push(rec3.clone());
+                        self.zfile_has.push(rec3);
+                        self.zf_spelled.push((owner, t.to_string(), op["x"].as_u64().unwrap_or(0)));
+                        Value::Null
+                    }
+                    ("ZfInsert", Err(e)) => json!({"zonefile_insert_error": e.to_string()}),
+                    (_, Err(_)) => Value::Null, // rejected, as the model says
+                    (_, Ok(())) => json!({"not_rejected": rec3}),
+                }
             }
             "Build" => {
                 // the generator's Build carries the whole zone file
                 if let Some(z) = op["zf"].as_array() {
                     self.zf = z.clone();
                 }
-                match build_zone(&self.zf) {
+                let built = if op["br"].is_string() { self.build_routed(op) } else { build_zone(&self.zf) };
+                match built {
                     Ok(z) => {
+                        self.tree = Some(tree_with(&z));
                         self.zone = Some(z);
                         Value::Null
                     }
@@ -349,7 +607,8 @@ impl ZoneHarness {
             }
             "Open" => {
                 if let Some(Session::W { wz, root }) = self.writers.get_mut(&w) {
-                    *root = Some(self.rt.block_on(wz.open(false)).unwrap());
+                    // diff = open(true): the session also collects a zone diff
+                    *root = Some(self.rt.block_on(wz.open(op["diff"] == true)).unwrap());
                 }
                 // a ZoneUpdater opened in new() and re-opens after each commit
                 Value::Null
@@ -376,13 +635,13 @@ impl ZoneHarness {
             }
             "W_UpdateChild" => {
                 if let Some(Session::W { root: Some(root), .. }) = self.writers.get(&w) {
-                    let _ = Self::descend(&self.rt, root, &op["n"]);
+                    let _ = Self::descend(&self.rt, root, &spelled(op, "sn", &op["n"]));
                 }
                 Value::Null
             }
             "W_UpdateRrset" | "W_RemoveRrset" | "W_RemoveAll" | "W_MakeRegular" | "W_MakeCname" | "W_MakeZoneCut" => {
                 if let Some(Session::W { root: Some(root), .. }) = self.writers.get(&w) {
-                    let child = Self::descend(&self.rt, root, &op["n"]);
+                    let child = Self::descend(&self.rt, root, &spelled(op, "sn", &op["n"]));
                     let node: &Box<dyn WritableZoneNode> = child.as_ref().unwrap_or(root);
                     let res = match a {
                         "W_UpdateRrset" => self.rt.block_on(node.update_rrset(rrset_of(t, &u64s(&op["xs"])))),
@@ -400,7 +659,7 @@ impl ZoneHarness {
                                 .map(|g| g.iter().map(|r| record_of(&r[0], r[1].as_str().unwrap_or("A"), r[2].as_u64().unwrap_or(0))).collect())
                                 .unwrap_or_default();
                             self.rt.block_on(node.make_zone_cut(ZoneCut {
-                                name: name_of(&op["n"]),
+                                name: spelled(op, "sn", &op["n"]),
                                 ns: rrset_of("NS", &u64s(&op["ns"])),
                                 ds: if ds.is_empty() { None } else { Some(rrset_of("DS", &ds)) },
                                 glue,
@@ -416,8 +675,8 @@ impl ZoneHarness {
             "U_AddRecord" | "U_DeleteRecord" | "U_DeleteAll" | "U_Soa" => {
                 if let Some(Session::U { up }) = self.writers.get_mut(&w) {
                     let upd = match a {
-                        "U_AddRecord" => ZoneUpdate::AddRecord(record_of(&op["n"], t, op["x"].as_u64().unwrap_or(0))),
-                        "U_DeleteRecord" => ZoneUpdate::DeleteRecord(record_of(&op["n"], t, op["x"].as_u64().unwrap_or(0))),
+                        "U_AddRecord" => ZoneUpdate::AddRecord(record_at(spelled(op, "sn", &op["n"]), Class::IN, t, op["x"].as_u64().unwrap_or(0))),
+                        "U_DeleteRecord" => ZoneUpdate::DeleteRecord(record_at(spelled(op, "sn", &op["n"]), Class::IN, t, op["x"].as_u64().unwrap_or(0))),
                         "U_Soa" => ZoneUpdate::BeginBatchAdd(soa_rec(op["x"].as_u64().unwrap_or(0))),
                         _ => ZoneUpdate::DeleteAllRecords,
                     };
@@ -470,6 +729,27 @@ impl ZoneHarness {
     pub fn fresh_query(&self, qn: &Value, qt: &str) -> Value {
         let rd = self.zone().read();
         query(rd.as_ref(), qn, qt)
+    }
+
+    /// a fresh reader's answer to one query as the model put it (spelling, query
+    /// route, observation route)
+    pub fn fresh_query_as(&self, c: &Value) -> Value {
+        if c["rt"] == "tree" {
+            match &self.tree {
+                Some(t) => query_via_tree(t, c),
+                None => json!({"no_tree": true}),
+            }
+        } else {
+            let rd = self.zone().read();
+            query_as(rd.as_ref(), c)
+        }
+    }
+
+    pub fn reader_query_as(&self, r: &str, c: &Value) -> Value {
+        match self.readers.get(r) {
+            Some(rd) => query_as(rd.as_ref(), c),
+            None => json!({"no_reader": r}),
+        }
     }
 
     pub fn fresh_walk(&self) -> Value {
